@@ -298,4 +298,193 @@ theorem inclusion_count (k : Nat) : ∀ (m x : Nat), x < k + m →
 theorem outcomes_length (k : Nat) : ∀ m, (outcomes k m).length = (allDraws k m).length := by
   intro m; simp [outcomes]
 
+/-! ### crypto.Sample is Algorithm R: its picks applied to `[0, n)` give `reservoir` -/
+
+theorem draw31_lt (n t : Nat) (c : Bool) (hn : 0 < n) : ∀ (s : Stream) (v : Nat) (r : Stream),
+    draw31 n t c s = .ok (v, r) → v < n := by
+  intro s
+  induction s using draw31.induct t c with
+  | case1 b0 b1 b2 b3 rest x hx =>
+    intro v r h
+    have hx' : t < le32 b0 b1 b2 b3 := hx
+    simp only [draw31, gt_iff_lt, hx', ↓reduceIte, Res.ok.injEq, Prod.mk.injEq] at h
+    rw [← h.1]; exact Nat.mod_lt _ hn
+  | case2 b0 b1 b2 b3 rest x hx hc =>
+    intro v r h
+    have hx' : ¬ t < le32 b0 b1 b2 b3 := hx
+    simp [draw31, hx', hc] at h
+  | case3 b0 b1 b2 b3 rest x hx hc ih =>
+    intro v r h
+    have hx' : ¬ t < le32 b0 b1 b2 b3 := hx
+    have hc' : c = false := by simpa using hc
+    subst hc'
+    simp only [draw31, gt_iff_lt, hx', ↓reduceIte] at h
+    exact ih v r (by simpa using h)
+  | case4 s' hs =>
+    intro v r h
+    unfold draw31 at h
+    split at h
+    · exact absurd rfl (hs _ _ _ _ _)
+    · simp at h
+
+theorem draw63_lt (n t : Nat) (c : Bool) (hn : 0 < n) : ∀ (s : Stream) (v : Nat) (r : Stream),
+    draw63 n t c s = .ok (v, r) → v < n := by
+  intro s
+  induction s using draw63.induct t c with
+  | case1 b0 b1 b2 b3 b4 b5 b6 b7 rest x hx =>
+    intro v r h
+    have hx' : t < le64 b0 b1 b2 b3 b4 b5 b6 b7 := hx
+    simp only [draw63, gt_iff_lt, hx', ↓reduceIte, Res.ok.injEq, Prod.mk.injEq] at h
+    rw [← h.1]; exact Nat.mod_lt _ hn
+  | case2 b0 b1 b2 b3 b4 b5 b6 b7 rest x hx hc =>
+    intro v r h
+    have hx' : ¬ t < le64 b0 b1 b2 b3 b4 b5 b6 b7 := hx
+    simp [draw63, hx', hc] at h
+  | case3 b0 b1 b2 b3 b4 b5 b6 b7 rest x hx hc ih =>
+    intro v r h
+    have hx' : ¬ t < le64 b0 b1 b2 b3 b4 b5 b6 b7 := hx
+    have hc' : c = false := by simpa using hc
+    subst hc'
+    simp only [draw63, gt_iff_lt, hx', ↓reduceIte] at h
+    exact ih v r (by simpa using h)
+  | case4 s' hs =>
+    intro v r h
+    unfold draw63 at h
+    split at h
+    · exact absurd rfl (hs _ _ _ _ _ _ _ _ _)
+    · simp at h
+
+theorem randIntn_cases (n : Int) (c : Bool) (s : Stream) :
+    (n ≤ 0 → ∃ m, randIntn n c s = .panic m) ∧
+    (0 < n → n ≤ 2147483647 → randIntn n c s = randInt31 n.toNat c s) ∧
+    (2147483647 < n → randIntn n c s = randInt63 n.toNat c s) := by
+  unfold randIntn maxInt32
+  refine ⟨fun h => ⟨"invalid argument: n must be greater than 0", by simp [h]⟩, fun h1 h2 => ?_, fun h => ?_⟩
+  · have : ¬ n ≤ 0 := by omega
+    simp [this, h2]
+  · have h1 : ¬ n ≤ 0 := by omega
+    have h2 : ¬ n ≤ ((2147483647 : Nat) : Int) := by omega
+    simp only [h1, h2, ↓reduceIte]
+
+theorem randInt31_lt (n : Nat) (c : Bool) (s : Stream) (v : Nat) (r : Stream) (hn : 0 < n)
+    (h : randInt31 n c s = .ok (v, r)) : v < n := by
+  unfold randInt31 at h
+  split at h
+  · simp only [Res.ok.injEq, Prod.mk.injEq] at h; omega
+  · split at h
+    · simp at h
+    · exact draw31_lt n _ c hn s v r h
+
+theorem randInt63_lt (n : Nat) (c : Bool) (s : Stream) (v : Nat) (r : Stream) (hn : 0 < n)
+    (h : randInt63 n c s = .ok (v, r)) : v < n := by
+  unfold randInt63 at h
+  split at h
+  · simp only [Res.ok.injEq, Prod.mk.injEq] at h; omega
+  · exact draw63_lt n _ c hn s v r h
+
+/-- RandIntn(n) returns a value in `[0, n)` -/
+theorem randIntn_lt (n : Int) (c : Bool) (s : Stream) (v : Nat) (r : Stream)
+    (h : randIntn n c s = .ok (v, r)) : (v : Int) < n := by
+  obtain ⟨h0, h1, h2⟩ := randIntn_cases n c s
+  by_cases hn0 : n ≤ 0
+  · obtain ⟨m, hm⟩ := h0 hn0
+    rw [hm] at h; simp at h
+  · by_cases hn1 : n ≤ 2147483647
+    · rw [h1 (by omega) hn1] at h
+      have := randInt31_lt n.toNat c s v r (by omega) h; omega
+    · rw [h2 (by omega)] at h
+      have := randInt63_lt n.toNat c s v r (by omega) h; omega
+
+theorem applyPicks_append' {α : Type} : ∀ (a b : List (Nat × Nat)) (l : List α),
+    applyPicks l (a ++ b) = applyPicks (applyPicks l a) b
+  | [], _, _ => rfl
+  | (d, s) :: a, b, l => by
+    simp only [cons_append, applyPicks]
+    split <;> exact applyPicks_append' a b _
+
+theorem sampleLoop_reservoir (rnd : Int → Bool → Stream → Res (Nat × Stream))
+    (hrnd : ∀ (N : Int) (c : Bool) (s : Stream) (v : Nat) (r : Stream), rnd N c s = .ok (v, r) → (v : Int) < N)
+    (n k : Nat) (c : Bool) :
+    ∀ (m i : Nat) (s : Stream) (l : List Nat) (picks : List (Nat × Nat)) (s' : Stream),
+      sampleLoopWith rnd k c m i s = .ok (picks, s') → k ≤ i → i + m = n →
+      l.length = n → l.drop k = (List.range n).drop k →
+      ∃ js : List Nat, js.length = m ∧ (∀ (t : Nat) (ht : t < js.length), js[t] ≤ i + t) ∧
+        (applyPicks l picks).take k = reservoir.go (l.take k) i js := by
+  intro m
+  induction m with
+  | zero =>
+    intro i s l picks s' h _ _ _ _
+    simp only [sampleLoopWith, Res.ok.injEq, Prod.mk.injEq] at h
+    obtain ⟨rfl, _⟩ := h
+    exact ⟨[], rfl, fun t ht => by simp at ht, by simp [applyPicks, reservoir.go]⟩
+  | succ m ih =>
+    intro i s l picks s' h hk him hlen hdrop
+    simp only [sampleLoopWith] at h
+    split at h
+    · rename_i j s1 hj
+      split at h
+      · rename_i ps' s'' hrec
+        simp only [Res.ok.injEq, Prod.mk.injEq] at h
+        obtain ⟨rfl, rfl⟩ := h
+        have hji : j ≤ i := by have := hrnd _ c s j s1 hj; omega
+        have hi : i < n := by omega
+        have hli : l[i]? = some i := by
+          have h1 : (l.drop k)[i - k]? = ((List.range n).drop k)[i - k]? := by rw [hdrop]
+          rw [getElem?_drop, getElem?_drop] at h1
+          have : k + (i - k) = i := by omega
+          rw [this] at h1
+          rw [h1]; simp [hi]
+        rw [applyPicks_append']
+        have hkl : (l.take k).length = k := by rw [length_take]; omega
+        by_cases hjk : j < k
+        · simp only [hjk, ↓reduceIte, applyPicks, hli]
+          obtain ⟨js, hjs, hb, heq⟩ := ih (i + 1) s1 (l.set j i) ps' s'' hrec (by omega) (by omega)
+            (by simpa using hlen) (by rw [drop_set_of_lt hjk]; exact hdrop)
+          refine ⟨j :: js, by simp [hjs], ?_, ?_⟩
+          · intro t ht
+            cases t with
+            | zero => simpa using hji
+            | succ t =>
+              have := hb t (by simpa using ht)
+              simp only [getElem_cons_succ]; omega
+          · rw [heq, take_set]
+            simp only [reservoir.go, stepRes, hkl, hjk, ↓reduceIte]
+        · simp only [hjk, ↓reduceIte, applyPicks]
+          obtain ⟨js, hjs, hb, heq⟩ := ih (i + 1) s1 l ps' s'' hrec (by omega) (by omega) hlen hdrop
+          refine ⟨j :: js, by simp [hjs], ?_, ?_⟩
+          · intro t ht
+            cases t with
+            | zero => simpa using hji
+            | succ t =>
+              have := hb t (by simpa using ht)
+              simp only [getElem_cons_succ]; omega
+          · rw [heq]
+            simp only [reservoir.go, stepRes, hkl, hjk, ↓reduceIte]
+      · simp at h
+      · simp at h
+    · simp at h
+    · simp at h
+
+theorem mem_allDraws (k : Nat) : ∀ (m : Nat) (js : List Nat), js.length = m →
+    (∀ (t : Nat) (ht : t < js.length), js[t] ≤ k + t) → js ∈ allDraws k m
+  | 0, js, hl, _ => by
+    have : js = [] := by simpa using hl
+    subst this; exact mem_singleton.mpr rfl
+  | m + 1, js, hl, hb => by
+    rcases eq_nil_or_concat js with rfl | ⟨init, last, hjs⟩
+    · simp at hl
+    · rw [concat_eq_append] at hjs
+      subst hjs
+      simp only [length_append, length_cons, length_nil] at hl
+      have hil : init.length = m := by omega
+      simp only [allDraws, mem_flatMap, mem_map, mem_range]
+      refine ⟨init, mem_allDraws k m init hil ?_, last, ?_, rfl⟩
+      · intro t ht
+        have := hb t (by simp; omega)
+        rwa [getElem_append_left ht] at this
+      · have := hb m (by simp; omega)
+        rw [getElem_append_right (by omega)] at this
+        simp [hil] at this
+        omega
+
 end ScionTime.Sample
